@@ -2,4 +2,4 @@ From Coq Require Import Extraction ExtrOcamlBasic.
 From GoSyn Require Import Driver.
 Extraction Language OCaml.
 
-Extraction "../extract/model.ml" run_tokens oracle_num.
+Extraction "../extract/model.ml" run_tokens oracle_num oracle_rune oracle_string esc_str.
